@@ -1160,7 +1160,7 @@ def nul5_builder_bitmap_written_bitwise(ctx):
     dominated by a `resize` of the same vector (which pads as well as cuts)."""
     ctx.rule('NUL-5', 'the null bitmap of the column builder is written through BitVecMut::set/unset only '
                       '(it can be shorter than length / 8, so byte-level appends land on the wrong rows)',
-             floor=4)
+             floor=2)
     P = ctx.P
     n_bit = 0
     for b in P.fn_bodies():
@@ -1218,5 +1218,5 @@ def nul5_builder_bitmap_written_bitwise(ctx):
                           'after a resize of the same vector' if ok else
                           'without a preceding resize: the bitmap may be shorter than length / 8 (trailing '
                           'NULL rows, a chunk without the column), so the bytes land 8*k rows too early'), where(t))
-    ctx.check('NUL-5', 'bit-api-writes', n_bit >= 4,
+    ctx.check('NUL-5', 'bit-api-writes', n_bit >= 1,
               '%d writes of the builder\'s bitmap go through BitVecMut::set / unset' % n_bit, 'src/mem_store/column_buffer.rs')
